@@ -1,3 +1,601 @@
-"""Case builders for the approximate conditionals (filled in with the approximate model)."""
+"""Case builders for the feature-based approximate conditionals
+(`LRBFGaussianConditional`, `LSEMGaussianConditional`; approximate_conditional.py:1-690).
+
+Properties: C16 (moment matching is exact; read-out of unit-height bumps) and the feature-model
+clause of C14 (expected log-conditionals).
+
+Oracles are NumPy only and never read a reference value from the library:
+
+* the DOCUMENTED model  mean(x) = M [x; phi(x)] + b,  cov = Sigma,  with
+  RBF  phi_k(x) = exp(-1/2 sum_i ((x_i - s_ki)/l_ki)^2)          (one at the centre s_k),
+  LSEM phi_k(x) = exp(-1/2 (w_k'x + w_k0)^2)                      (one on the hyperplane w_k'x + w_k0 = 0),
+  evaluated directly from the constructor parameters;
+* its moments under p(x) by converged tensor Gauss-Hermite quadrature (Dx <= 2, two orders compared)
+  and, independently, by closed-form Gaussian integrals of Gaussian bumps (any Dx).
+
+`LSEM-kernel-sign`: the code's LSEM kernel factor is exp(-1/2 (w'x - w0)^2).  Every oracle is therefore
+evaluated for the documented sign first; when that fails for an LSEM object and the same oracle with
+the argument w'x - w0 reproduces the library's value, the failure is reported with a site that
+contains "LSEM-kernel-sign" (one defect, many call sites); anything else is a plain failure.
+"""
+import numpy as np
+import gen
+from runner import Case, failure
+from oracle.common import rel_err, LOG2PI
+from .common import seeded, Obj, pdf_params, TOL
+
+GH_ORDERS = (80, 120)          # compared against each other; agreement <= GH_CONV required
+GH_CONV = 1e-10
+STATS = dict(gh_used=0, gh_unconverged=0, closed_form_used=0, lsem_sign_failures=0)
+
+
+# ==================================================================================================
+# the documented model in NumPy
+
+def kernel_values(kind, prm, x, sign=+1):
+    """phi_k(x) for points x [N, Dx] -> [N, Dk], straight from the class documentation.
+    `sign` only matters for LSEM: +1 = documented argument w'x + w0, -1 = w'x - w0."""
+    x = np.atleast_2d(x)
+    if kind == "rbf":
+        s, l = prm["mu"], prm["length_scale"]
+        h = (x[:, None, :] - s[None]) / l[None]                 # [N, Dk, Dx]
+        return np.exp(-0.5 * np.sum(h ** 2, axis=2))
+    W = prm["W"]
+    w0, w = W[:, 0], W[:, 1:]
+    h = x @ w.T + sign * w0[None]
+    return np.exp(-0.5 * h ** 2)
+
+
+def kernel_quadratics(kind, prm, sign=+1):
+    """the same kernels written as exp(-x'A_k x/2 + a_k'x + c_k) (used by the closed forms only)"""
+    if kind == "rbf":
+        s, l = prm["mu"], prm["length_scale"]
+        A = np.stack([np.diag(1.0 / l[k] ** 2) for k in range(s.shape[0])])
+        a = s / l ** 2
+        c = -0.5 * np.sum((s / l) ** 2, axis=1)
+        return A, a, c
+    W = prm["W"]
+    w0, w = W[:, 0], W[:, 1:]
+    A = np.einsum("ki,kj->kij", w, w)
+    a = -sign * w0[:, None] * w                                   # -(w'x + s w0)^2/2 = -(w'x)^2/2 - s w0 w'x - w0^2/2
+    c = -0.5 * w0 ** 2
+    return A, a, c
+
+
+def mean_fn(kind, prm, x, sign=+1):
+    """documented conditional mean M [x; phi(x)] + b for points x [N, Dx] -> [N, Dy]"""
+    x = np.atleast_2d(x)
+    F = np.hstack([x, kernel_values(kind, prm, x, sign)])
+    return F @ prm["M"][0].T + prm["b"][0][None]
+
+
+# ==================================================================================================
+# feature moments E[f], E[f f'], E[f x'] under N(m, S):  Gauss-Hermite and closed form
+
+def gh_nodes(m, S, n):
+    t, w = np.polynomial.hermite_e.hermegauss(n)
+    w = w / np.sqrt(2.0 * np.pi)
+    D = m.shape[0]
+    grids = np.meshgrid(*([t] * D), indexing="ij")
+    Z = np.stack([g.reshape(-1) for g in grids], axis=1)
+    wg = np.meshgrid(*([w] * D), indexing="ij")
+    Wt = np.ones(Z.shape[0])
+    for g in wg:
+        Wt = Wt * g.reshape(-1)
+    L = np.linalg.cholesky(S)
+    return m[None] + Z @ L.T, Wt
+
+
+def gh_expect(fn, m, S):
+    """E_{N(m,S)}[fn(x)] (fn: [Q, D] -> [Q, ...]) by tensor Gauss-Hermite; None if the two orders disagree"""
+    vals = []
+    for n in GH_ORDERS:
+        X, Wt = gh_nodes(m, S, n)
+        F = fn(X)
+        vals.append(np.tensordot(Wt, F, axes=(0, 0)))
+    if rel_err(vals[0], vals[1]) > GH_CONV:
+        STATS["gh_unconverged"] += 1
+        return None
+    STATS["gh_used"] += 1
+    return vals[1]
+
+
+def tilt(m, S, A, a, c):
+    """Z = ∫ N(x; m, S) exp(-x'Ax/2 + a'x + c) dx and the mean / covariance of the tilted Gaussian"""
+    P = np.linalg.inv(S)
+    Q = P + A
+    h = P @ m + a
+    Sq = np.linalg.inv(Q)
+    mq = Sq @ h
+    lnZ = c + 0.5 * h @ mq - 0.5 * m @ P @ m - 0.5 * np.linalg.slogdet(Q)[1] - 0.5 * np.linalg.slogdet(S)[1]
+    return float(np.exp(lnZ)), mq, Sq
+
+
+def feature_moments_cf(kind, prm, m, S, sign=+1):
+    """closed forms: Ef [Dphi], Eff [Dphi, Dphi], Efx [Dphi, Dx]"""
+    A, a, c = kernel_quadratics(kind, prm, sign)
+    Dk, Dx = a.shape
+    Ek = np.zeros(Dk); Ekx = np.zeros((Dk, Dx)); Ekk = np.zeros((Dk, Dk))
+    for k in range(Dk):
+        Z, mk, _ = tilt(m, S, A[k], a[k], c[k])
+        Ek[k] = Z; Ekx[k] = Z * mk
+        for l in range(Dk):
+            Ekk[k, l] = tilt(m, S, A[k] + A[l], a[k] + a[l], c[k] + c[l])[0]
+    Exx = S + np.outer(m, m)
+    Ef = np.concatenate([m, Ek])
+    Eff = np.block([[Exx, Ekx.T], [Ekx, Ekk]])
+    Efx = np.vstack([Exx, Ekx])
+    STATS["closed_form_used"] += 1
+    return Ef, Eff, Efx
+
+
+def feature_moments_gh(kind, prm, m, S, sign=+1):
+    Dx = m.shape[0]
+    def fn(X):
+        F = np.hstack([X, kernel_values(kind, prm, X, sign)])
+        return np.concatenate([F, np.einsum("qi,qj->qij", F, F).reshape(len(X), -1),
+                               np.einsum("qi,qj->qij", F, X).reshape(len(X), -1)], axis=1)
+    v = gh_expect(fn, m, S)
+    if v is None:
+        return None
+    Dphi = Dx + (prm["mu"].shape[0] if kind == "rbf" else prm["W"].shape[0])
+    Ef = v[:Dphi]
+    Eff = v[Dphi:Dphi + Dphi * Dphi].reshape(Dphi, Dphi)
+    Efx = v[Dphi + Dphi * Dphi:].reshape(Dphi, Dx)
+    return Ef, Eff, Efx
+
+
+def matched_moments(prm, m, feat):
+    """moments of (x, y) under p(y|x) p(x) from the feature moments:
+    mu_y, Sigma_y, C_yx = Cov(y, x), E[m m'] (second moment of the conditional mean)"""
+    Ef, Eff, Efx = feat
+    M, b, Sig = prm["M"][0], prm["b"][0], prm["Sigma"][0]
+    MEf = M @ Ef
+    mu_y = MEf + b
+    Emm = M @ Eff @ M.T + np.outer(MEf, b) + np.outer(b, MEf) + np.outer(b, b)
+    S_y = Sig + Emm - np.outer(mu_y, mu_y)
+    Eyx = M @ Efx + np.outer(b, m)
+    C_yx = Eyx - np.outer(mu_y, m)
+    return mu_y, S_y, C_yx, Emm
+
+
+def reference_sets(kind, prm, m, S):
+    """[(name, sign, (mu_y, S_y, C_yx, Emm))]: closed form (always) and Gauss-Hermite (Dx <= 2, converged),
+    for the documented kernel (sign +1) and, for LSEM, for the argument w'x - w0 (sign -1)"""
+    out = []
+    signs = (+1, -1) if kind == "lsem" else (+1,)
+    for sign in signs:
+        out.append(("closed-form", sign, matched_moments(prm, m, feature_moments_cf(kind, prm, m, S, sign))))
+        if m.shape[0] <= 2:
+            fg = feature_moments_gh(kind, prm, m, S, sign)
+            if fg is not None:
+                out.append(("gauss-hermite", sign, matched_moments(prm, m, fg)))
+    return out
+
+
+# ==================================================================================================
+# verdict helper: documented model first, then the sign-flipped LSEM kernel
+
+def judge(fails, prop, kind, site, what, got, refs, params, tol=TOL):
+    """refs: list of (oracle name, sign, expected).  Passes iff `got` agrees with EVERY documented
+    (sign +1) reference.  Otherwise: if it agrees with every sign -1 reference the failure carries
+    'LSEM-kernel-sign' in its site."""
+    got = np.asarray(got, dtype=float)
+    doc = [(n, e) for (n, s, e) in refs if s == +1]
+    alt = [(n, e) for (n, s, e) in refs if s == -1]
+    if not doc:
+        raise RuntimeError(f"oracle for {site} has no reference value (harness bug)")
+    bad = [(n, e, rel_err(got, np.asarray(e, dtype=float))) for (n, e) in doc]
+    bad = [t for t in bad if not (t[2] <= tol)]
+    if not bad:
+        return True
+    n, e, err = bad[0]
+    if kind == "lsem" and alt and all(rel_err(got, np.asarray(ea, dtype=float)) <= tol for (_, ea) in alt):
+        STATS["lsem_sign_failures"] += 1
+        fails.append(failure(prop, f"{site}:LSEM-kernel-sign",
+                             what + " for the documented kernel exp(-(w'x + w0)^2/2); the value equals the one for "
+                                    "exp(-(w'x - w0)^2/2) (update_phi sets nu = +w0*w)",
+                             expected=np.asarray(e).tolist(), got=got.tolist(), deviation=float(err),
+                             params=dict(params, oracle=n)))
+    else:
+        fails.append(failure(prop, site, what, expected=np.asarray(e).tolist(), got=got.tolist(), deviation=float(err),
+                             params=dict(params, oracle=n)))
+    return False
+
+
+# ==================================================================================================
+# builders
+
+def feat_params(rng, kind, Dy, Dx, Dk, zero_offset=False):
+    """parameters with non-zero b, centres / offsets; length scales and weights such that the
+    Gauss-Hermite reference converges for the p(x) of `mk_px`"""
+    prm = dict(M=rng.standard_normal((1, Dy, Dx + Dk)), b=rng.standard_normal((1, Dy)), Sigma=gen.pd_batch(rng, 1, Dy))
+    if kind == "rbf":
+        prm["mu"] = np.zeros((Dk, Dx)) if zero_offset else rng.standard_normal((Dk, Dx)) + 0.3
+        prm["length_scale"] = rng.uniform(1.0, 2.5, (Dk, Dx))
+    else:
+        W = 0.6 * rng.standard_normal((Dk, Dx + 1))
+        W[:, 0] = 0.0 if zero_offset else rng.uniform(0.4, 1.2, Dk) * rng.choice([-1.0, 1.0], Dk)
+        prm["W"] = W
+    return prm
+
+
+def mk_feat(m, rng, kind, Dy, Dx, Dk, give="Sigma", zero_offset=False, b_none=False):
+    prm = feat_params(rng, kind, Dy, Dx, Dk, zero_offset)
+    S = prm["Sigma"]
+    kw = dict(Sigma=S) if give == "Sigma" else (dict(Lambda=np.linalg.inv(S)) if give == "Lambda" else
+                                                dict(Sigma=S, Lambda=np.linalg.inv(S), ln_det_Sigma=np.linalg.slogdet(S)[1]))
+    b = None if b_none else prm["b"]
+    if b_none:
+        prm["b"] = np.zeros((1, Dy))
+    if kind == "rbf":
+        reg = m.feat_rbf(prm["M"], b, prm["mu"], prm["length_scale"], **kw)
+    else:
+        reg = m.feat_lsem(prm["M"], b, prm["W"], **kw)
+    return Obj(reg, kind=kind, prm=prm, Dy=Dy, Dx=Dx, Dk=Dk)
+
+
+def mk_px(m, rng, R, D, hi=1.2):
+    S = gen.pd_batch(rng, R, D, lo=0.3, hi=hi); mu = gen.vec_batch(rng, R, D)
+    L, nu, lb = pdf_params(S, mu)
+    return Obj(m.pdf(R, D, S, mu), Sigma=S, mu=mu, Lambda=L, R=R, D=D)
+
+
+def raised(m, reg):
+    return m.regs.get(reg) is None
+
+
+def gauss_entropy(S):
+    D = S.shape[0]
+    return 0.5 * (D * (1.0 + LOG2PI) + np.linalg.slogdet(S)[1])
+
+
+# ==================================================================================================
+# C16
+
+def case_readout(kind, Dy, Dx, Dk, give="Sigma", zero_offset=False, b_none=False):
+    """conditional mean = documented linear read-out of x and of unit-height bumps"""
+    PROP = "C16"
+    label = f"feature-readout/{kind}/Dy{Dy}Dx{Dx}Dk{Dk}/{give}/z{int(zero_offset)}b{int(b_none)}"
+    def fn(m):
+        rng = gen.rng_path(m.seed, label)
+        fails = []
+        c = mk_feat(m, rng, kind, Dy, Dx, Dk, give, zero_offset, b_none)
+        prm = c.prm
+        params = dict(kind=kind, Dy=Dy, Dx=Dx, Dk=Dk, give=give, zero_offset=zero_offset, b_none=b_none)
+        if raised(m, c.reg):
+            fails.append(failure(PROP, f"constructor:{kind}", f"raised: {m.impl[-1][1:]}", params=params)); return fails
+        x = gen.points(rng, 4, Dx)
+        xr = m.arr(x)
+        refs = lambda f, pts: [("documented-model", s, f(s, pts)) for s in ((+1, -1) if kind == "lsem" else (+1,))]
+        # feature vector
+        ph = m.feat_phi(c.reg, xr)
+        if raised(m, ph):
+            fails.append(failure(PROP, f"evaluate_phi:{kind}", f"raised: {m.impl[-1][1:]}", params=params))
+        else:
+            judge(fails, PROP, kind, f"evaluate_phi:{kind}", "evaluate_phi(x) != (x, phi(x))", np.asarray(m.regs[ph]),
+                  refs(lambda s, p: np.hstack([p, kernel_values(kind, prm, p, s)]), x), params)
+        # unit height: one at the RBF centre / on the hyperplane where the documented argument vanishes
+        if kind == "rbf":
+            x1 = prm["mu"].copy()
+        else:
+            W = prm["W"]; w0, w = W[:, 0], W[:, 1:]
+            t = rng.standard_normal((Dk, Dx))
+            nrm = np.sum(w * w, axis=1)
+            t = t - (np.sum(t * w, axis=1) / nrm)[:, None] * w          # component inside the hyperplane
+            x1 = t - (w0 / nrm)[:, None] * w                             # w'x1 + w0 = 0
+        x1r = m.arr(x1)
+        ph1 = m.feat_phi(c.reg, x1r)
+        if not raised(m, ph1):
+            got = np.diag(np.asarray(m.regs[ph1])[:, Dx:])
+            alt = [("documented-model", -1, np.diag(kernel_values(kind, prm, x1, -1)))] if kind == "lsem" else []
+            judge(fails, PROP, kind, f"unit-height:{kind}",
+                  "kernel is not one at the centre / on the hyperplane where its documented argument vanishes",
+                  got, [("unit-height", +1, np.ones(Dk))] + alt, params)
+        # conditional mean and condition_on_x (the object's own p(y|x))
+        cm = m.feat_cond_mu(c.reg, xr)
+        if raised(m, cm):
+            fails.append(failure(PROP, f"get_conditional_mu:{kind}", f"raised: {m.impl[-1][1:]}", params=params))
+        else:
+            judge(fails, PROP, kind, f"get_conditional_mu:{kind}", "get_conditional_mu(x) != M (x, phi(x)) + b",
+                  np.asarray(m.regs[cm]), refs(lambda s, p: mean_fn(kind, prm, p, s), x), params)
+        for via_call in (False, True):
+            cx = m.feat_condition_on_x(c.reg, xr, via_call=via_call)
+            site = f"condition_on_x:{kind}" + (":__call__" if via_call else "")
+            if raised(m, cx):
+                fails.append(failure(PROP, site, f"raised: {m.impl[-1][1:]}", params=params)); continue
+            P = m.regs[cx]
+            judge(fails, PROP, kind, site + ":mu", "condition_on_x(x).mu != M (x, phi(x)) + b", np.asarray(P.mu),
+                  refs(lambda s, p: mean_fn(kind, prm, p, s), x), params)
+            judge(fails, PROP, kind, site + ":Sigma", "condition_on_x(x).Sigma != Sigma", np.asarray(P.Sigma),
+                  [("documented-model", +1, np.tile(prm["Sigma"], (len(x), 1, 1)))], params)
+        # set_y is documented as unavailable
+        sy = m.feat_set_y(c.reg, m.arr(gen.points(rng, 2, Dy)))
+        if not (m.impl[-1][0] == "refuse" and m.impl[-1][1] == "refuse-documented"):
+            fails.append(failure(PROP, f"set_y:{kind}", "set_y did not raise NotImplementedError", params=params))
+        return fails
+    return Case(label, fn)
+
+
+def case_moments(kind, Dy, Dx, Dk, Rx, zero_offset=False, housekeeping=False):
+    """marginal / joint / conditional transformations carry exactly the moments of p(y|x) p(x)"""
+    PROP = "C16"
+    label = f"feature-moments/{kind}/Dy{Dy}Dx{Dx}Dk{Dk}/Rx{Rx}/z{int(zero_offset)}h{int(housekeeping)}"
+    def fn(m):
+        rng = gen.rng_path(m.seed, label)
+        fails = []
+        c = mk_feat(m, rng, kind, Dy, Dx, Dk, zero_offset=zero_offset)
+        prm = c.prm
+        p = mk_px(m, rng, Rx, Dx)
+        params = dict(kind=kind, Dy=Dy, Dx=Dx, Dk=Dk, Rx=Rx, zero_offset=zero_offset)
+
+        def check_all(tag):
+            R = [{(n, s): mm for (n, s, mm) in reference_sets(kind, prm, p.mu[r], p.Sigma[r])} for r in range(Rx)]
+            keys = [k for k in R[0] if all(k in R[r] for r in range(Rx))]      # oracles available for every component
+            pick = lambda f: [(n, s, np.stack([f(R[r][(n, s)], r) for r in range(Rx)])) for (n, s) in keys]
+            joint_S = lambda mm, r: np.block([[p.Sigma[r], mm[2].T], [mm[2], mm[1]]])
+            def cond_of(mm, r):
+                Mc = mm[2].T @ np.linalg.inv(mm[1])
+                return Mc, p.mu[r] - Mc @ mm[0], p.Sigma[r] - Mc @ mm[2]
+            # raw matched moments
+            r_mu, r_S = m.feat_moments(c.reg, p.reg)
+            r_X = m.feat_cross(c.reg, p.reg)
+            if raised(m, r_mu) or raised(m, r_S) or raised(m, r_X):
+                fails.append(failure(PROP, f"get_expected_moments:{kind}{tag}", "raised", params=params))
+            else:
+                judge(fails, PROP, kind, f"get_expected_moments:{kind}:mu{tag}", "E[y] under p(y|x)p(x)", np.asarray(m.regs[r_mu]),
+                      pick(lambda mm, r: mm[0]), params)
+                judge(fails, PROP, kind, f"get_expected_moments:{kind}:Sigma{tag}", "Cov[y] under p(y|x)p(x)", np.asarray(m.regs[r_S]),
+                      pick(lambda mm, r: mm[1]), params)
+                judge(fails, PROP, kind, f"get_expected_cross_terms:{kind}{tag}", "E[y x'] under p(y|x)p(x)", np.asarray(m.regs[r_X]),
+                      pick(lambda mm, r: mm[2] + np.outer(mm[0], p.mu[r])), params)
+            # marginal
+            g = m.feat_transform("marginal", c.reg, p.reg)
+            if raised(m, g):
+                fails.append(failure(PROP, f"affine_marginal_transformation:{kind}{tag}", f"raised: {m.impl[-1][1:]}", params=params))
+            else:
+                G = m.regs[g]
+                judge(fails, PROP, kind, f"affine_marginal_transformation:{kind}:mu{tag}", "marginal mean != E[y]", np.asarray(G.mu),
+                      pick(lambda mm, r: mm[0]), params)
+                judge(fails, PROP, kind, f"affine_marginal_transformation:{kind}:Sigma{tag}", "marginal covariance != Cov[y]",
+                      np.asarray(G.Sigma), pick(lambda mm, r: mm[1]), params)
+            # joint (x first)
+            j = m.feat_transform("joint", c.reg, p.reg)
+            if raised(m, j):
+                fails.append(failure(PROP, f"affine_joint_transformation:{kind}{tag}", f"raised: {m.impl[-1][1:]}", params=params))
+            else:
+                J = m.regs[j]
+                judge(fails, PROP, kind, f"affine_joint_transformation:{kind}:mu{tag}", "joint mean != (E[x], E[y])", np.asarray(J.mu),
+                      pick(lambda mm, r: np.concatenate([p.mu[r], mm[0]])), params)
+                judge(fails, PROP, kind, f"affine_joint_transformation:{kind}:Sigma{tag}",
+                      "joint covariance != [[Cov x, Cov(x,y)], [Cov(y,x), Cov y]]", np.asarray(J.Sigma), pick(joint_S), params)
+            # conditional p(x|y) of that joint
+            cc = m.feat_transform("conditional", c.reg, p.reg)
+            if raised(m, cc):
+                fails.append(failure(PROP, f"affine_conditional_transformation:{kind}{tag}", f"raised: {m.impl[-1][1:]}", params=params))
+            else:
+                C = m.regs[cc]
+                judge(fails, PROP, kind, f"affine_conditional_transformation:{kind}:M{tag}", "M != Cov(x,y) Cov(y)^-1", np.asarray(C.M),
+                      pick(lambda mm, r: cond_of(mm, r)[0]), params)
+                judge(fails, PROP, kind, f"affine_conditional_transformation:{kind}:b{tag}", "b != E[x] - M E[y]", np.asarray(C.b),
+                      pick(lambda mm, r: cond_of(mm, r)[1]), params)
+                judge(fails, PROP, kind, f"affine_conditional_transformation:{kind}:Sigma{tag}", "Sigma != Cov x - M Cov(y,x)",
+                      np.asarray(C.Sigma), pick(lambda mm, r: cond_of(mm, r)[2]), params)
+            if housekeeping:
+                ce = m.feat_transform("cond_entropy", c.reg, p.reg)
+                mi = m.feat_transform("mutual_information", c.reg, p.reg)
+                if raised(m, ce) or raised(m, mi):
+                    fails.append(failure(PROP, f"conditional_entropy:{kind}{tag}", "raised", params=params))
+                else:
+                    Hx = lambda r: gauss_entropy(p.Sigma[r])
+                    judge(fails, PROP, kind, f"conditional_entropy:{kind}{tag}", "H(matched joint) - H(p_x)", np.asarray(m.regs[ce]),
+                          pick(lambda mm, r: gauss_entropy(joint_S(mm, r)) - Hx(r)), params)
+                    judge(fails, PROP, kind, f"mutual_information:{kind}{tag}", "H(y) + H(x) - H(matched joint)", np.asarray(m.regs[mi]),
+                          pick(lambda mm, r: gauss_entropy(mm[1]) + Hx(r) - gauss_entropy(joint_S(mm, r))), params)
+
+        if raised(m, c.reg):
+            fails.append(failure(PROP, f"constructor:{kind}", f"raised: {m.impl[-1][1:]}", params=params)); return fails
+        check_all("")
+        if housekeeping:
+            # inherited slice: a linear conditional over the feature vector with the same arrays
+            s = m.feat_slice(c.reg, [0, -1])
+            if raised(m, s):
+                fails.append(failure(PROP, f"slice:{kind}", f"raised: {m.impl[-1][1:]}", params=params))
+            else:
+                S_ = m.regs[s]
+                judge(fails, PROP, kind, f"slice:{kind}:M", "slice([0,-1]).M != (M, M)", np.asarray(S_.M),
+                      [("parameters", +1, np.tile(prm["M"], (2, 1, 1)))], params)
+            m.feat_slice(c.reg, [1])        # out of range: NaN fill on both sides
+            # update_Sigma, update_phi: the transformations must follow the new covariance
+            S2 = gen.pd_batch(rng, 1, Dy)
+            m.feat_update_sigma(c.reg, S2); prm["Sigma"] = S2
+            m.feat_update_phi(c.reg)
+            check_all(":after-update_Sigma")
+        return fails
+    return Case(label, fn)
+
+
+def case_ctor_refusal(kind):
+    """neither Sigma nor Lambda: RuntimeError("Either Sigma or Lambda need to be specified.") — documented"""
+    PROP = "C16"
+    label = f"feature-ctor-refusal/{kind}"
+    def fn(m):
+        rng = gen.rng_path(m.seed, label)
+        prm = feat_params(rng, kind, 2, 2, 2)
+        if kind == "rbf":
+            m.feat_rbf(prm["M"], prm["b"], prm["mu"], prm["length_scale"])
+        else:
+            m.feat_lsem(prm["M"], prm["b"], prm["W"])
+        if not (m.impl[-1][0] == "refuse" and m.impl[-1][1] == "refuse-documented"):
+            return [failure(PROP, f"constructor:{kind}", "constructor without Sigma and Lambda did not raise the documented RuntimeError",
+                            params=dict(kind=kind))]
+        return []
+    return Case(label, fn, nontrivial=False)
+
+
+def c16_feature_cases(seed, tier):
+    rng = gen.rng_path(seed, "C16-feature")
+    out = []
+    # (Dy, Dx, Dk, Rx): Dx <= 2 have the Gauss-Hermite reference, Dx = 3 the closed form only
+    shapes = [(2, 2, 3, 2), (1, 1, 1, 1), (2, 3, 2, 1)]
+    if tier != "quick":
+        shapes += [(3, 1, 2, 3), (1, 2, 4, 2), (2, 4, 1, 2), (3, 3, 3, 1)]
+        for _ in range(6):
+            shapes.append((int(rng.integers(1, 4)), int(rng.integers(1, 5)), int(rng.integers(1, 5)), int(rng.integers(1, 4))))
+    gives = ["Sigma", "Lambda", "all"]
+    for i, (Dy, Dx, Dk, Rx) in enumerate(shapes):
+        for kind in ("rbf", "lsem"):
+            out.append(case_readout(kind, Dy, Dx, Dk, give=gives[i % 3], b_none=(i % 3 == 1)))
+            out.append(case_moments(kind, Dy, Dx, Dk, Rx, housekeeping=(i == 0)))
+    for kind in ("rbf", "lsem"):
+        out.append(case_ctor_refusal(kind))
+    # offsets / centres at zero: the LSEM sign is immaterial there, the moment matching itself is checked
+    out.append(case_moments("lsem", 2, 2, 3, 2, zero_offset=True))
+    out.append(case_readout("lsem", 2, 2, 3, zero_offset=True))
+    if tier != "quick":
+        out.append(case_moments("rbf", 2, 2, 3, 2, zero_offset=True))
+        out.append(case_moments("lsem", 1, 3, 2, 2, zero_offset=True, housekeeping=True))
+    return seeded(out, seed)
+
+
+# ==================================================================================================
+# C14, feature clause
+
+def log_cond_refs(kind, prm, mq, Sq, Dy, Dx):
+    """E_q[ln p(y|x)] for q = N(mq, Sq) over (y, x), y first: closed form and Gauss-Hermite over x"""
+    M, b, Sig = prm["M"][0], prm["b"][0], prm["Sigma"][0]
+    Lam = np.linalg.inv(Sig)
+    const = np.linalg.slogdet(Sig)[1] + Dy * LOG2PI
+    my, mx = mq[:Dy], mq[Dy:]
+    Syy, Sxx, Syx = Sq[:Dy, :Dy], Sq[Dy:, Dy:], Sq[:Dy, Dy:]
+    out = []
+    for sign in ((+1, -1) if kind == "lsem" else (+1,)):
+        # closed form: E[(y-m)'L(y-m)] = tr L E[yy'] - 2 tr L E[m y'] + tr L E[m m']
+        feat = feature_moments_cf(kind, prm, mx, Sxx, sign)
+        Emm = matched_moments(prm, mx, feat)[3]
+        A, a, c = kernel_quadratics(kind, prm, sign)
+        Dk = a.shape[0]
+        Eky = np.zeros((Dk, Dy))
+        for k in range(Dk):
+            Aj = np.zeros((Dy + Dx, Dy + Dx)); Aj[Dy:, Dy:] = A[k]
+            aj = np.concatenate([np.zeros(Dy), a[k]])
+            Z, mk, _ = tilt(mq, Sq, Aj, aj, c[k])
+            Eky[k] = Z * mk[:Dy]
+        Efy = np.vstack([Syx.T + np.outer(mx, my), Eky])           # E[f(x) y']
+        Emy = M @ Efy + np.outer(b, my)
+        quad = np.trace(Lam @ (Syy + np.outer(my, my))) - 2.0 * np.trace(Lam @ Emy) + np.trace(Lam @ Emm)
+        out.append(("closed-form", sign, -0.5 * (quad + const)))
+        if Dx <= 2:
+            G = Syx @ np.linalg.inv(Sxx)
+            Sc = Syy - G @ Syx.T
+            def fn(X, sign=sign):
+                d = my[None] + (X - mx[None]) @ G.T - mean_fn(kind, prm, X, sign)
+                return np.einsum("qi,ij,qj->q", d, Lam, d)
+            v = gh_expect(fn, mx, Sxx)
+            if v is not None:
+                out.append(("gauss-hermite", sign, -0.5 * (np.trace(Lam @ Sc) + float(v) + const)))
+    return out
+
+
+def log_cond_y_refs(kind, prm, mx, Sxx, y, Dy):
+    """E_{N(mx,Sxx)}[ln p(y|x)] at one y"""
+    M, b, Sig = prm["M"][0], prm["b"][0], prm["Sigma"][0]
+    Lam = np.linalg.inv(Sig)
+    const = np.linalg.slogdet(Sig)[1] + Dy * LOG2PI
+    out = []
+    for sign in ((+1, -1) if kind == "lsem" else (+1,)):
+        feat = feature_moments_cf(kind, prm, mx, Sxx, sign)
+        mu_y, _, _, Emm = matched_moments(prm, mx, feat)
+        quad = y @ Lam @ y - 2.0 * y @ Lam @ mu_y + np.trace(Lam @ Emm)
+        out.append(("closed-form", sign, -0.5 * (quad + const)))
+        if mx.shape[0] <= 2:
+            def fn(X, sign=sign):
+                d = y[None] - mean_fn(kind, prm, X, sign)
+                return np.einsum("qi,ij,qj->q", d, Lam, d)
+            v = gh_expect(fn, mx, Sxx)
+            if v is not None:
+                out.append(("gauss-hermite", sign, -0.5 * (float(v) + const)))
+    return out
+
+
+def stack_refs(per_comp):
+    """[[(name, sign, scalar)] per component] -> [(name, sign, array over components)] (common oracles only)"""
+    keys = [(n, s) for (n, s, _) in per_comp[0]]
+    keys = [k for k in keys if all(any((n, s) == k for (n, s, _) in pc) for pc in per_comp)]
+    return [(n, s, np.array([[v for (n2, s2, v) in pc if (n2, s2) == (n, s)][0] for pc in per_comp])) for (n, s) in keys]
+
+
+def case_feat_log_cond(kind, Dy, Dx, Dk, Rq, given_px=False, zero_offset=False):
+    PROP = "C14"
+    label = f"feature-log_cond/{kind}/Dy{Dy}Dx{Dx}Dk{Dk}/Rq{Rq}/px{int(given_px)}z{int(zero_offset)}"
+    def fn(m):
+        rng = gen.rng_path(m.seed, label)
+        fails = []
+        c = mk_feat(m, rng, kind, Dy, Dx, Dk, zero_offset=zero_offset)
+        prm = c.prm
+        q = mk_px(m, rng, Rq, Dy + Dx, hi=1.5)            # ANY Gaussian over (y, x), y first
+        params = dict(kind=kind, Dy=Dy, Dx=Dx, Dk=Dk, Rq=Rq, given_px=given_px, zero_offset=zero_offset)
+        px = None
+        if given_px:
+            px = m.pdf(Rq, Dx, q.Sigma[:, Dy:, Dy:], q.mu[:, Dy:])
+        r_ = m.feat_log_cond(c.reg, q.reg, px)
+        if raised(m, r_):
+            fails.append(failure(PROP, f"integrate_log_conditional:{kind}", f"raised: {m.impl[-1][1:]}", params=params)); return fails
+        refs = stack_refs([log_cond_refs(kind, prm, q.mu[r], q.Sigma[r], Dy, Dx) for r in range(Rq)])
+        judge(fails, PROP, kind, f"integrate_log_conditional:{kind}", "integrate_log_conditional(q) != E_q[ln p(y|x)]",
+              np.asarray(m.regs[r_]), refs, params)
+        return fails
+    return Case(label, fn)
+
+
+def case_feat_log_cond_y(kind, Dy, Dx, Dk, Rp, N, callable_form, zero_offset=False):
+    PROP = "C14"
+    label = f"feature-log_cond_y/{kind}/Dy{Dy}Dx{Dx}Dk{Dk}/Rp{Rp}/N{N}/call{int(callable_form)}z{int(zero_offset)}"
+    def fn(m):
+        rng = gen.rng_path(m.seed, label)
+        fails = []
+        c = mk_feat(m, rng, kind, Dy, Dx, Dk, zero_offset=zero_offset)
+        prm = c.prm
+        p = mk_px(m, rng, Rp, Dx)
+        y = gen.points(rng, N, Dy); yr = m.arr(y)
+        params = dict(kind=kind, Dy=Dy, Dx=Dx, Dk=Dk, Rp=Rp, N=N, callable_form=callable_form, zero_offset=zero_offset)
+        r_ = m.feat_log_cond_y(c.reg, p.reg, yr, callable_form=callable_form)
+        if raised(m, r_):
+            if N != Rp and N != 1 and Rp != 1:
+                return fails          # y and p_x batches that do not broadcast: an einsum shape error on both sides
+            fails.append(failure(PROP, f"integrate_log_conditional_y:{kind}", f"raised: {m.impl[-1][1:]}", params=params)); return fails
+        Ro = max(Rp, N)
+        per = []
+        for k in range(Ro):
+            r = k if Rp > 1 else 0; n = k if N > 1 else 0
+            per.append(log_cond_y_refs(kind, prm, p.mu[r], p.Sigma[r], y[n], Dy))
+        judge(fails, PROP, kind, f"integrate_log_conditional_y:{kind}", "integrate_log_conditional_y(p_x)(y) != E_p[ln p(y|x)]",
+              np.asarray(m.regs[r_]), stack_refs(per), params)
+        return fails
+    return Case(label, fn)
+
+
 def c14_cases(seed, tier):
-    return []
+    rng = gen.rng_path(seed, "C14-feature")
+    out = []
+    shapes = [(2, 2, 2, 2), (1, 1, 1, 1), (2, 3, 2, 1)]          # (Dy, Dx, Dk, R of the Gaussian)
+    if tier != "quick":
+        shapes += [(1, 2, 3, 3), (3, 1, 2, 2), (2, 4, 1, 1)]
+        for _ in range(5):
+            shapes.append((int(rng.integers(1, 4)), int(rng.integers(1, 5)), int(rng.integers(1, 4)), int(rng.integers(1, 4))))
+    for i, (Dy, Dx, Dk, R) in enumerate(shapes):
+        for kind in ("rbf", "lsem"):
+            out.append(case_feat_log_cond(kind, Dy, Dx, Dk, R, given_px=bool(i % 2)))
+            out.append(case_feat_log_cond_y(kind, Dy, Dx, Dk, R, R, callable_form=bool(i % 2)))
+            if i == 0 or tier != "quick":
+                out.append(case_feat_log_cond_y(kind, Dy, Dx, Dk, 1, 3, callable_form=not bool(i % 2)))
+                out.append(case_feat_log_cond_y(kind, Dy, Dx, Dk, R, 1, callable_form=bool(i % 2)))
+    out.append(case_feat_log_cond("lsem", 2, 2, 2, 2, zero_offset=True))
+    out.append(case_feat_log_cond_y("lsem", 2, 2, 2, 2, 2, callable_form=False, zero_offset=True))
+    if tier != "quick":
+        out.append(case_feat_log_cond_y("rbf", 2, 2, 2, 3, 2, callable_form=False))      # non-broadcastable: refused on both sides
+    return seeded(out, seed)
+
+
+def evidence_extra():
+    return dict(feature_oracle_stats=dict(STATS))
